@@ -6,8 +6,10 @@ PROP = dict(
         level_text=("Monitored executions of mpt_linepart_linear / mpt_linepart_join (C) and linepart::array / polyline (C++): every class "
                     "sequence over {below, min, inside, max, above} up to length 7 (quick) / 8 (thorough) in 5 numeric scalings, each split "
                     "with all remaining data and with chunk limits 1, 2, 3; 100k / 5M PRNG real sequences and ranges; runs of 65533..65538 "
-                    "visible / invisible points.  After each split the list of parts is checked for progress, totals, exact coverage of "
-                    "in-range points and cut/trim fractions against the long double crossing; after joining again.  Exploration, not proof."),
+                    "visible / invisible points; two and three limited dimensions applied in turn to one linepart::array (every class sequence "
+                    "per dimension up to length 4 / 5 for two, 2 / 3 for three dimensions, 150k / 3M PRNG data sets).  After each split the list of parts is checked for progress, totals, exact coverage of "
+                    "in-range points and cut/trim fractions against the long double crossing (several dimensions: against the place where the "
+                    "line enters / leaves the visible box); after joining again.  Exploration, not proof."),
         level_note=("trusts the partition oracle in harness/c18_oracle.c (long double crossing, tolerance 2^-16(1+1e-9)), gcc ASan+UBSan; "
                     "fractions are not asserted where the differences bound-v0 / v1-v0 overflow double; non-finite data: progress and totals only"),
         legs=[dict(name="c18_linepart", memcheck=1500, src=["c18_linepart.c", "c18_oracle.c"], libs=["mptplot", "mptcore"], batch=512,
@@ -19,15 +21,19 @@ PROP = dict(
                    cflags=["-fno-sanitize=vptr"],
                    floors={"linepart::array::apply": 50000, "linepart::array::set": 10000, "transform::part": 100000,
                            "monitor:cut-fraction": 20000, "monitor:two-dimension-lists": 10000,
-                           "polyline::set": 5000, "monitor:polyline-points": 100000, "monitor:polyline-parts-iterated": 50000}),
+                           "polyline::set": 5000, "monitor:polyline-points": 100000, "monitor:polyline-parts-iterated": 50000,
+                           "exhaustive:nd-instances": 400000, "monitor:nd-lists": 900000, "monitor:nd-cut-fraction": 300000,
+                           "monitor:nd-trim-fraction": 300000, "monitor:nd-cut-zero": 300000, "monitor:nd-coverage-points": 500000}),
               ],
         rule=("case = (a) one class sequence (exhaustive by index) instantiated in 5 scalings, or (b) one PRNG sequence of 1..300 reals "
               "with a PRNG range, or (c) one data set with a run of 65533..65538 points of one kind plus head/tail classes, or several runs "
               "of PRNG lengths, or (d) one (to.raw, post.raw) pair of synthetic joins with all usr/cut/trim variants; non-trivial = the data "
               "contain an in-range and an out-of-range point (a), at least one segment crossing the range boundary and only finite values (b), "
               "always (c), raw total > 65530 (d); distinct = 64-bit hash of values and range"),
-        exhaustive_note="all sequences over {below, at-min, inside, at-max, above} of length 1..7 (quick) / 1..8 (thorough) x 5 scalings x call windows {all, 1, 2, 3}",
+        exhaustive_note="all sequences over {below, at-min, inside, at-max, above} of length 1..7 (quick) / 1..8 (thorough) x 5 scalings x call windows {all, 1, 2, 3}; two limited dimensions in turn: all class sequences of length 1..4 (quick) / 1..5 (thorough) per dimension, three dimensions: 1..2 / 1..3, each after set(n) and on an empty array",
         assumptions=SAN_BASE + ["drawn portion of a part = its first usr points (mptplot/values.h, polyline::part::line)",
                                 "cut is measured from the first, trim from the last drawn point towards its neighbour (linepart_linear.c)",
+                                "several dimensions: a point is visible when in range in every dimension; the line enters the box at the largest entering fraction "
+                                "of the dimensions whose first point is outside (leaves at the largest leaving fraction)",
                                 "a crossing segment has to be drawn only when the call was given both of its points and all data up to the end (n <= 65535)"],
     )
